@@ -141,6 +141,8 @@ def clone_value(v, memo):
         a = Agg(v.kind, [])
         memo[key] = a
         a.fields = [clone_value(c, memo) for c in v.fields]
+        if hasattr(v, "names"):
+            a.names = v.names
         return a
     if isinstance(v, Opt):
         return Opt(v.cond, clone_value(v.payload, memo))
@@ -304,6 +306,9 @@ class Engine:
                 cur = v.cell
             elif step[0] == "field":
                 v = cur.v
+                if hasattr(v, "child_cell"):          # lazily projected foreign struct (see csr.Foreign)
+                    cur = v.child_cell(step[1])
+                    continue
                 if isinstance(v, Closure):
                     v = v.env
                 if isinstance(v, Opaque) and isinstance(v.data, Agg):
@@ -326,6 +331,8 @@ class Engine:
                     if len(hit) != 1:
                         raise Unsupported(f"downcast of {v.name} to {step[1]}")
                     cur = Cell(Agg(step[1], [Cell(x) for x in hit[0]]))
+                elif isinstance(v, Opaque) and v.what == "result" and step[1] in ("Ok", "Err"):
+                    cur = Cell(Agg(step[1], [Cell(v.data[1] if step[1] == "Ok" else v.data[2])]))
                 elif isinstance(v, Z) and v.e.sort() == DnValue:
                     acc = getattr(DnValue, "p_" + step[1])
                     cur = Cell(Agg(step[1], [Cell(Z(acc(v.e)))]))
@@ -419,12 +426,14 @@ class Engine:
             return
         m = re.match(r"^([A-Za-z_][\w:<>', ]*?) \{ (.*) \}$", rhs)
         if m and not rhs.startswith("const"):
-            fields = []
+            fields, names = [], []
             for part in split_top(m.group(2)):
-                _, op = part.split(":", 1)
+                nm, op = part.split(":", 1)
+                names.append(nm.strip())
                 fields.append(Cell(self.operand(st, frame, op)))
             kind = re.sub(r"::<.*", "", m.group(1)).strip()
             dst.v = Agg(kind, fields)
+            dst.v.names = names
             return
         if rhs.startswith("(") and not rhs.startswith("(*") and "," in rhs and not re.match(r"^\(_\d+\.", rhs) and not rhs.startswith("((") :
             parts = split_top(rhs[1:-1])
